@@ -55,6 +55,7 @@ func genMods(r *c.Rng) []ModSpec {
 		}
 		mods[i] = m
 	}
+	genMem(r, mods)
 	for i := range mods {
 		m := &mods[i]
 		for k := r.Intn(3); k > 0 && m.nHold() > 0; k-- {
@@ -89,6 +90,76 @@ func genMods(r *c.Rng) []ModSpec {
 	}
 	return mods
 }
+
+// genMem adds shared memories and shared mutable i32 globals to two of three module graphs: an early module defines
+// and exports them, later modules import the memory / the global and/or accessor functions of earlier modules.
+// Runs after the function imports were chosen (ImpF entries name own functions of earlier modules by record index:
+// accessor imports shift those, so they are re-based here).
+func genMem(r *c.Rng, mods []ModSpec) {
+	if r.Intn(3) == 0 {
+		return
+	}
+	n := len(mods)
+	old := make([]int, n)
+	for i := range mods {
+		old[i] = mods[i].nImpRec()
+	}
+	def := r.Intn(n - 1)
+	mods[def].Mem = 1
+	if r.Intn(2) == 0 {
+		mods[def].GI = 1
+	}
+	if n > 2 && r.Intn(3) == 0 { // a second, independent memory
+		d2 := r.Intn(n - 1)
+		if d2 != def {
+			mods[d2].Mem = 1
+		}
+	}
+	linked := false
+	for i := 1; i < n; i++ {
+		m := &mods[i]
+		var memSrc, globSrc []int
+		for j := 0; j < i; j++ {
+			if mods[j].hasMem() {
+				memSrc = append(memSrc, j)
+			}
+			if mods[j].hasGlob() {
+				globSrc = append(globSrc, j)
+			}
+		}
+		force := !linked && i == n-1
+		if m.Mem == 0 && len(memSrc) > 0 && (force || r.Intn(2) == 0) {
+			m.ImpM = []int{memSrc[r.Intn(len(memSrc))]}
+		}
+		if m.GI == 0 && len(globSrc) > 0 && r.Intn(2) == 0 {
+			m.ImpGI = []int{globSrc[r.Intn(len(globSrc))]}
+		}
+		if len(memSrc) > 0 && (force || r.Intn(3) != 0) {
+			j := memSrc[r.Intn(len(memSrc))]
+			if len(m.ImpM) > 0 && r.Intn(3) != 0 {
+				j = m.ImpM[0] // accessors of the module the memory came from: two paths to the same memory
+			}
+			m.ImpA = append(m.ImpA, [2]int{j, 0}, [2]int{j, 1})
+			for k := r.Intn(3); k > 0; k-- {
+				m.ImpA = append(m.ImpA, [2]int{memSrc[r.Intn(len(memSrc))], r.Intn(4)})
+			}
+			linked = true
+		}
+		if len(globSrc) > 0 && r.Intn(2) == 0 {
+			j := globSrc[r.Intn(len(globSrc))]
+			m.ImpA = append(m.ImpA, [2]int{j, 4 + r.Intn(2)})
+		}
+	}
+	// re-base the record indices that name own functions of a module whose import count changed
+	for i := range mods {
+		for k := range mods[i].ImpF {
+			j := mods[i].ImpF[k][0]
+			mods[i].ImpF[k][1] += mods[j].nImpRec() - old[j]
+		}
+	}
+}
+
+var memAddrs = []int{8, 16, 65528, 65533, 65536 + 8, 2*65536 - 8, 2*65536 + 8, 3*65536 - 8, 3*65536 + 8, 4*65536 - 8, 4 * 65536}
 
 // a record that ref.func may name: an imported ()->i32 function or an own constant function
 func pickRec(r *c.Rng, m *ModSpec) int {
@@ -152,8 +223,71 @@ func generate(seed uint64, n int) {
 			add("set", m, t, k, f)
 			return k
 		}
+		// memory / global operations
+		var memMods []int // modules with some path to a shared memory or global
+		for i := range mods {
+			if mods[i].hasMem() || mods[i].hasGlob() || len(mods[i].ImpA) > 0 {
+				memMods = append(memMods, i)
+			}
+		}
+		memArgs := func(kind int) (int, int) {
+			switch kind {
+			case 1:
+				return memAddrs[r.Intn(len(memAddrs))], 0
+			case 2:
+				return memAddrs[r.Intn(len(memAddrs))], 1 + r.Intn(1<<20)
+			case 3, 6:
+				return []int{1, 1, 1, 0, 2, 5}[r.Intn(6)], 0
+			case 5:
+				return 1 + r.Intn(1<<20), 0
+			}
+			return 0, 0
+		}
+		// pickPath: own code (-1) or an imported accessor of module m, with the accessor kind
+		pickPath := func(m int) (p, kind int, ok bool) {
+			ms := &mods[m]
+			var ps [][2]int
+			if ms.hasMem() {
+				ps = append(ps, [2]int{-1, 0}, [2]int{-1, 1}, [2]int{-1, 1}, [2]int{-1, 2}, [2]int{-1, 2}, [2]int{-1, 3})
+			}
+			if ms.hasGlob() {
+				ps = append(ps, [2]int{-1, 4}, [2]int{-1, 5})
+			}
+			for q, a := range ms.ImpA {
+				ps = append(ps, [2]int{q, a[1]}, [2]int{q, a[1]})
+			}
+			if len(ps) == 0 {
+				return 0, 0, false
+			}
+			x := ps[r.Intn(len(ps))]
+			return x[0], x[1], true
+		}
+		memUse := func(m int) {
+			ms := &mods[m]
+			if ms.hasMem() && r.Intn(5) == 0 {
+				kind := r.Intn(4)
+				a1, a2 := memArgs(kind)
+				add("mh", m, kind, a1, a2)
+				return
+			}
+			if p, kind, ok := pickPath(m); ok {
+				a1, a2 := memArgs(kind)
+				add("mu", m, p, kind, a1, a2)
+			}
+		}
 		// use: an operation that calls into / mutates an instance
 		use := func() {
+			if len(memMods) > 0 && r.Intn(3) == 0 {
+				m := memMods[r.Intn(len(memMods))]
+				if r.Intn(4) != 0 {
+					// prefer an instance believed open
+					for try := 0; try < 4 && !up[m]; try++ {
+						m = memMods[r.Intn(len(memMods))]
+					}
+				}
+				memUse(m)
+				return
+			}
 			m := anyMod()
 			ms := &mods[m]
 			switch k := r.Intn(10); {
@@ -299,6 +433,146 @@ func generate(seed uint64, n int) {
 			add("ind", src[0], src[1], k)
 			add("ind", src[0], src[1], k)
 		}
+		// memScenario: the definer of a shared memory is closed (and possibly its compiled module; dropped; collected)
+		// while an importer lives; THEN the memory is grown; THEN the importer uses it through the closed definer's
+		// functions. Variants: who grows (importer's own code, an imported grow accessor = the closed definer's code,
+		// the host), before or after the handles are dropped and collected, with a call of the importer or of the
+		// definer itself in progress.
+		root := func(m int) int {
+			for mods[m].Mem == 0 && len(mods[m].ImpM) > 0 {
+				m = mods[m].ImpM[0]
+			}
+			return m
+		}
+		memScenario := func() {
+			var cands [][2]int
+			for b := range mods {
+				for q, a := range mods[b].ImpA {
+					if a[1] < 4 {
+						cands = append(cands, [2]int{b, q})
+					}
+				}
+			}
+			if len(cands) == 0 {
+				return
+			}
+			bq := cands[r.Intn(len(cands))]
+			b := bq[0]
+			a := mods[b].ImpA[bq[1]][0]
+			acc := func(kind int) int {
+				for q, x := range mods[b].ImpA {
+					if x[0] == a && x[1] == kind {
+						return q
+					}
+				}
+				return -1
+			}
+			same := mods[b].hasMem() && root(b) == root(a)
+			qs, ql := acc(0), acc(1)
+			addr := []int{8, 16, 65528}[r.Intn(3)]
+			wr := func(ad int) {
+				v := 1 + r.Intn(1<<20)
+				switch {
+				case same:
+					add("mu", b, -1, 2, ad, v)
+				case acc(2) >= 0:
+					add("mu", b, acc(2), 2, ad, v)
+				default:
+					add("mh", a, 2, ad, v)
+				}
+			}
+			grow := func() {
+				switch {
+				case same && r.Intn(3) == 0:
+					add("mh", b, 3, 1, 0)
+				case same && r.Intn(2) == 0:
+					add("mu", b, -1, 3, 1, 0)
+				case acc(3) >= 0:
+					add("mu", b, acc(3), 3, 1, 0)
+				case same:
+					add("mu", b, -1, 3, 1, 0)
+				default:
+					add("mh", a, 3, 1, 0)
+				}
+			}
+			observe := func() {
+				if qs >= 0 {
+					add("mu", b, qs, 0, 0, 0)
+				}
+				wr(addr)
+				if ql >= 0 {
+					add("mu", b, ql, 1, addr, 0)
+				}
+				wr(65536 + 8)
+				if ql >= 0 {
+					add("mu", b, ql, 1, 65536+8, 0)
+				}
+			}
+			wr(addr)
+			if ql >= 0 {
+				add("mu", b, ql, 1, addr, 0)
+			}
+			variant := r.Intn(5)
+			switch variant {
+			case 3: // a call of the importer is in progress: close and grow inside, continue into the definer's code
+				add("enter", b)
+				add("closemod", a)
+				up[a] = false
+				grow()
+				if r.Intn(2) == 0 {
+					add("gc")
+				}
+				q := ql
+				if q < 0 {
+					q = bq[1]
+				}
+				k := mods[b].ImpA[q][1]
+				a1, a2 := memArgs(k)
+				if k == 1 {
+					a1 = 65536 + 8
+				}
+				add("leavem", b, q, k, a1, a2)
+			case 4: // a call of the definer itself is in progress: it is closed, then grows and touches the new page
+				add("enter", a)
+				add("closemod", a)
+				up[a] = false
+				if r.Intn(2) == 0 {
+					add("gc")
+				}
+				add("leavem", a, -1, 6, 1, 0)
+			default:
+				add("closemod", a)
+				up[a] = false
+				if r.Intn(2) == 0 {
+					add("closecm", a)
+					compiled[a] = false
+				}
+				if variant == 0 {
+					grow() // before the handles go
+				}
+				if r.Intn(4) != 0 {
+					add("dropmod", a)
+				}
+				if r.Intn(2) == 0 {
+					add("dropcm", a)
+				}
+				add("gc")
+				if variant != 0 {
+					grow()
+					if r.Intn(2) == 0 {
+						add("gc")
+					}
+				}
+			}
+			observe()
+			if r.Intn(2) == 0 {
+				grow()
+				observe()
+			}
+		}
+		if r.Intn(4) != 0 {
+			memScenario()
+		}
 		for sc := 1 + r.Intn(2); sc > 0; sc-- {
 			switch r.Intn(4) {
 			case 0: // F08 pattern around a store-by-parameter import
@@ -395,7 +669,13 @@ func generate(seed uint64, n int) {
 						closing()
 					}
 				}
-				if ms.nHold() > 0 && r.Intn(2) == 0 {
+				if p, kind, ok := pickPath(m); ok && r.Intn(2) == 0 {
+					if p < 0 && kind == 3 && r.Intn(2) == 0 {
+						kind = 6 // grow, touch the new page, size
+					}
+					a1, a2 := memArgs(kind)
+					add("leavem", m, p, kind, a1, a2)
+				} else if ms.nHold() > 0 && r.Intn(2) == 0 {
 					add("leavei", m, r.Intn(ms.nHold()), slot())
 				} else {
 					add("leaver", m, pickRec(r, ms))
@@ -421,11 +701,16 @@ func generate(seed uint64, n int) {
 		_ = i
 		out.Emit(h)
 	}
+	for _, h := range FixedMem(n + 20) {
+		out.Emit(h)
+	}
 	out.Emit(Witness(n, true, false))
 	out.Emit(Witness(n+1, false, false))
 	out.Emit(Witness(n+2, true, true))
 	out.Emit(History{ID: n + 3, Cached: true, Cut: -1, Witness: "F08b", Probe: "global"})
 	out.Emit(History{ID: n + 4, Cached: true, Cut: -1, Witness: "F08b", Probe: "global", NoChurn: true})
+	out.Emit(History{ID: n + 5, Cached: false, Cut: -1, Witness: "MEMFREE", Probe: "alloc-importer", NoChurn: true})
+	out.Emit(History{ID: n + 6, Cached: true, Cut: -1, Witness: "MEMFREE", Probe: "alloc-definer", NoChurn: true})
 }
 
 // FixedShared: the run-time store into an imported SHARED table by an importer WITHOUT any element section (its
@@ -457,5 +742,56 @@ func FixedShared(id int) []History {
 			Op{"dropcm", []int{1}}, Op{"gc", nil}, Op{"ind", []int{0, 0, slot}}, Op{"gc", nil}, Op{"ind", []int{0, 0, slot}})
 		hs = append(hs, History{ID: id + v, Cached: v%2 == 0, Cut: -1, Mods: []ModSpec{owner, plugin}, Ops: ops})
 	}
+	return hs
+}
+
+// FixedMem: A defines and exports a memory; B imports the memory and A's accessors msize/mload/mstore/mgrow. A is
+// closed while B lives, THEN the memory is grown, THEN B uses it through the functions it imported from A and through
+// its own code. One history per way of growing and of closing.
+func FixedMem(id int) []History {
+	a := ModSpec{NFun: 1, Size: 4, NoElem: true, Mem: 1, GI: 1}
+	b := ModSpec{NFun: 1, NPriv: 1, Size: 4, NoElem: true, ImpM: []int{0}, ImpGI: []int{0},
+		ImpA: [][2]int{{0, 0}, {0, 1}, {0, 2}, {0, 3}, {0, 4}}}
+	cOnly := ModSpec{NFun: 1, NPriv: 1, Size: 4, NoElem: true, ImpA: [][2]int{{0, 0}, {0, 1}, {0, 2}, {0, 3}}} // no memory of its own
+	chain := ModSpec{NFun: 1, NPriv: 1, Size: 4, NoElem: true, ImpM: []int{1}, ImpA: [][2]int{{0, 0}, {0, 1}, {1, 0}, {1, 1}}}
+	setup := []Op{{"compile", []int{0}}, {"inst", []int{0}}, {"compile", []int{1}}, {"inst", []int{1}}}
+	obsB := []Op{{"mu", []int{1, -1, 0, 0, 0}}, {"mu", []int{1, 0, 0, 0, 0}}, {"mu", []int{1, -1, 2, 8, 333}}, {"mu", []int{1, 1, 1, 8, 0}},
+		{"mu", []int{1, -1, 2, 65544, 222}}, {"mu", []int{1, 1, 1, 65544, 0}}, {"mu", []int{1, 2, 2, 131064, 555}}, {"mu", []int{1, -1, 1, 131064, 0}},
+		{"mh", []int{1, 0, 0, 0}}, {"mh", []int{1, 1, 131064, 0}}}
+	closeHard := []Op{{"closemod", []int{0}}, {"closecm", []int{0}}, {"dropmod", []int{0}}, {"dropcm", []int{0}}, {"gc", nil}}
+	var hs []History
+	mk := func(mods []ModSpec, ops ...[]Op) {
+		var l []Op
+		for _, o := range ops {
+			l = append(l, o...)
+		}
+		hs = append(hs, History{ID: id + len(hs), Cached: len(hs)%2 == 0, Cut: -1, Mods: mods, Ops: l})
+	}
+	first := []Op{{"mu", []int{1, -1, 2, 8, 111}}, {"mu", []int{1, 1, 1, 8, 0}}, {"mu", []int{1, 4, 4, 0, 0}}, {"mu", []int{1, -1, 5, 77, 0}}}
+	ab := []ModSpec{a, b}
+	// 0: B's own memory.grow after a plain close of A
+	mk(ab, setup, first, []Op{{"closemod", []int{0}}, {"mu", []int{1, -1, 3, 1, 0}}}, obsB, []Op{{"mu", []int{1, 4, 4, 0, 0}}})
+	// 1: api.Memory.Grow on B after A is closed, dropped and collected
+	mk(ab, setup, first, closeHard, []Op{{"mh", []int{1, 3, 1, 0}}, {"gc", nil}}, obsB)
+	// 2: the grow accessor imported from A (the closed definer's own code grows)
+	mk(ab, setup, first, closeHard, []Op{{"mu", []int{1, 3, 3, 1, 0}}, {"gc", nil}}, obsB)
+	// 3: api.Memory.Grow on the closed A's handle
+	mk(ab, setup, first, []Op{{"closemod", []int{0}}, {"mh", []int{0, 3, 1, 0}}, {"dropmod", []int{0}}, {"gc", nil}}, obsB)
+	// 4: grown before AND after the close, twice
+	mk(ab, setup, first, []Op{{"mu", []int{1, -1, 3, 1, 0}}}, closeHard, []Op{{"mu", []int{1, -1, 3, 1, 0}}, {"gc", nil}}, obsB,
+		[]Op{{"mh", []int{1, 3, 1, 0}}, {"mu", []int{1, 0, 0, 0, 0}}, {"mu", []int{1, -1, 2, 262136, 9}}, {"mu", []int{1, 1, 1, 262136, 0}}})
+	// 5: a call of B in progress: A closed and the memory grown inside the host callback, B continues into A's mload
+	mk(ab, setup, first, []Op{{"enter", []int{1}}, {"closemod", []int{0}}, {"mh", []int{1, 3, 1, 0}}, {"mh", []int{1, 2, 65544, 4242}}, {"gc", nil},
+		{"leavem", []int{1, 1, 1, 65544, 0}}}, obsB)
+	// 6: a call of A itself in progress: closed inside the callback, continues with memory.grow and touches the new page
+	mk(ab, setup, first, []Op{{"enter", []int{0}}, {"closemod", []int{0}}, {"gc", nil}, {"leavem", []int{0, -1, 6, 1, 0}}}, obsB)
+	// 7: an importer without any memory of its own: everything goes through A's code
+	mk([]ModSpec{a, cOnly}, setup, []Op{{"mu", []int{1, 2, 2, 8, 111}}}, closeHard, []Op{{"mu", []int{1, 3, 3, 1, 0}}, {"gc", nil},
+		{"mu", []int{1, 0, 0, 0, 0}}, {"mu", []int{1, 2, 2, 65544, 5}}, {"mu", []int{1, 1, 1, 65544, 0}}, {"mu", []int{1, 1, 1, 8, 0}}})
+	// 8: a chain A <- B <- C (C imports the memory B re-exports, and accessors of both): close A and B, grow from C
+	mk([]ModSpec{a, b, chain}, setup, []Op{{"compile", []int{2}}, {"inst", []int{2}}}, first,
+		[]Op{{"closemod", []int{1}}, {"closemod", []int{0}}, {"dropmod", []int{0}}, {"dropmod", []int{1}}, {"gc", nil},
+			{"mu", []int{2, -1, 3, 1, 0}}, {"gc", nil}, {"mu", []int{2, -1, 2, 65544, 31}}, {"mu", []int{2, 0, 0, 0, 0}}, {"mu", []int{2, 2, 0, 0, 0}},
+			{"mu", []int{2, 1, 1, 65544, 0}}, {"mu", []int{2, 3, 1, 65544, 0}}, {"mu", []int{2, -1, 0, 0, 0}}})
 	return hs
 }
